@@ -176,6 +176,22 @@ func parseGrant(f []string) (g grantArgs, ok bool) {
 	return grantArgs{int(gt), int64(st), int64(ex), string(u), int(k), string(cmd)}, true
 }
 
+// issue <sess> <gtype> <start> <exp> <userHex> <key> <cmdHex> <leafOk>
+func parseIssue(f []string) (sess int, g grantArgs, leafOk bool, ok bool) {
+	if len(f) != 9 || (f[8] != "0" && f[8] != "1") {
+		return
+	}
+	i, ok1 := natLt(f[1], 1000)
+	g, ok2 := parseGrant(f[2:8])
+	if !ok1 || !ok2 {
+		return
+	}
+	if g.gtype == 3 || g.gtype == 4 || (g.gtype != 2 && g.cmd != "") || (g.exp > 1500000000 && g.exp < 3000000000) {
+		return
+	}
+	return int(i), g, f[8] == "1", true
+}
+
 func (g grantArgs) intent(pk keys.DHPublicKey) *authgrants.Intent {
 	i := &authgrants.Intent{
 		GrantType:      authgrants.GrantType(g.gtype),
@@ -183,7 +199,8 @@ func (g grantArgs) intent(pk keys.DHPublicKey) *authgrants.Intent {
 		ExpTime:        time.Unix(g.exp, 0),
 		TargetSNI:      certs.DNSName("target.example"),
 		TargetUsername: g.user,
-		DelegateCert:   certs.Certificate{Version: 1, Type: certs.Leaf, PublicKey: pk},
+		DelegateCert: certs.Certificate{Version: 1, Type: certs.Leaf, PublicKey: pk,
+			IssuedAt: time.Unix(1, 0), ExpiresAt: time.Unix(1<<40, 0)},
 	}
 	i.AssociatedData.CommandGrantData.Cmd = g.cmd
 	return i
@@ -306,6 +323,28 @@ func runState(in *bufio.Scanner, out *bufio.Writer) {
 					return "denied"
 				}
 				return "ok"
+			case "issue":
+				i, g, leafOk, ok := parseIssue(f)
+				if !ok {
+					return "bad-op"
+				}
+				if i >= len(sessions) {
+					return "nosess"
+				}
+				pk := keyOf(g.key)
+				kn[pk] = g.key
+				in := g.intent(pk)
+				if !leafOk {
+					in.DelegateCert.Type = certs.Intermediate
+				}
+				// what handleIntentCommunication does with the session's callbacks
+				if err := sessions[i].v.CheckIntent(*in, nil); err != nil {
+					return "denied"
+				}
+				if err := srv.AddAuthGrant(in); err != nil {
+					return "denied"
+				}
+				return "confirmed"
 			case "tube":
 				// the dispatch is inline in hopSession.start; it is exercised end to end (suite C07e2e)
 				return "bad-op"
@@ -438,6 +477,15 @@ func genState(g *GenCtx) {
 			case x == 3 && g.R.Chance(1, 2):
 				g.Op("loginkey %s %d", HexOrDash([]byte(users[g.R.Intn(nu)])), 1+g.R.Intn(nk))
 				sessGrants = append(sessGrants, nil)
+			case x == 5 && g.R.Chance(1, 2):
+				// a session issues a grant (for itself or for someone else)
+				gt := Pick(g.R, []int{1, 2, 2, 5, 0})
+				cmd := ""
+				if gt == 2 {
+					cmd = cmds[g.R.Intn(3)]
+				}
+				g.Op("issue %d %d %d %d %s %d %s %d", g.R.Intn(len(sessGrants)+1), gt, base, Pick(g.R, []uint64{1000, 1500000000, 3000000000, 1 << 39}),
+					HexOrDash([]byte(users[g.R.Intn(nu+1)%len(users)])), 1+g.R.Intn(nk), HexOrDash([]byte(cmd)), Pick(g.R, []int{1, 1, 1, 0}))
 			case x == 4 && g.R.Chance(1, 2):
 				ex := Pick(g.R, []uint64{0, 1000, 1499999999, 1500000000, 3000000000, 3000000001, 1 << 39})
 				g.Op("intent %d %d %d %s %d", g.R.Intn(len(sessGrants)+1), Pick(g.R, []int{0, 1, 2, 3, 4, 5, 6}), ex,
@@ -496,7 +544,8 @@ func genState(g *GenCtx) {
 	for _, b := range []string{"grant", "grant 2 1000 2000 75 1", "grant 256 1000 2000 75 1 6c73", "grant 2 1099511627776 2000 75 1 6c73",
 		"grant 2 1000 2000 7 1 6c73", "grant 2 1000 2000 75 65536 6c73", "grant 2 -1 2000 75 1 6c73", "login 75", "login 75 x", "login zz 1",
 		"exec 0 1500 0 6c73", "exec 0 1500 1000000000 6c73 0", "exec 0 1500 0 6c73 2", "exec x 1500 0 6c73 0", "dump 1", "new 1", "tube 0 5 1",
-		"intent 0 2 2000000000 75 1", "intent 0 2 4000000000 75", "frob"} {
+		"intent 0 2 2000000000 75 1", "intent 0 2 4000000000 75", "frob",
+		"issue 0 3 1000 4000000000 75 1 - 1", "issue 0 1 1000 4000000000 75 1 6c73 1", "issue 0 2 1000 2000000000 75 1 6c73 1", "issue 0 2 1000 4000000000 75 1 6c73"} {
 		g.Op("%s", b)
 	}
 	g.Op("login 75 1")
